@@ -45,6 +45,7 @@ Definition initial_ctx (i : run_input) : ctx :=
      x_cids := merge_cid_states (d_cids (ri_prev i)) (d_cids (ri_cur i));
      x_tracker := [];
      x_fold_counter := 0;
+     x_ext := ext_new;
      x_handler := handler_from cid (d_trace (ri_prev i)) (d_trace (ri_cur i)) |}.
 
 (* farewell_step/outcome.rs: dedup keeps the first occurrence (through a HashSet) *)
